@@ -467,6 +467,35 @@ func safeScan(t *sst.Table, prefix []byte) (out []string, failed bool) {
 	return out, scanErr != nil
 }
 
+func safeLevelScan(ll *sst.LevelList, prefix []byte) (out []string, failed bool) {
+	defer func() {
+		if p := recover(); p != nil {
+			failed = true
+		}
+	}()
+	var scanErr error
+	for e := range ll.ScanPrefixEntries(prefix, &scanErr) {
+		out = append(out, coqEntry(e.Key(), e.Value(), e.SeqNum(), e.IsDelete()))
+	}
+	return out, scanErr != nil
+}
+
+func safeLevelGet(ll *sst.LevelList, key []byte) (res getRes) {
+	defer func() {
+		if p := recover(); p != nil {
+			res = getRes{"GPanic", "panic"}
+		}
+	}()
+	e, err := ll.Get(key)
+	if errors.Is(err, kv.ErrNotFound) {
+		return getRes{"GNotFound", "notfound"}
+	}
+	if err != nil {
+		return getRes{"GErr", "err"}
+	}
+	return getRes{"(GFound " + coqEntry(e.Key(), e.Value(), e.SeqNum(), e.IsDelete()) + ")", "found"}
+}
+
 func execTab(c *hx.Case, ops []op) (*hx.Result, error) {
 	target := pInt(c, "target")
 	deep := pBool(c, "deep")
@@ -704,6 +733,46 @@ func execTab(c *hx.Case, ops []op) (*hx.Result, error) {
 		}
 		tags = append(tags, "get-"+class+"-"+fr.tag)
 	}
+	// The run as ONE sorted level: {L0 = {}, L1 = the tables of the run}, from the fresh and from the re-opened tables.
+	llF := sst.NewLevelListOfTables([][]*sst.Table{{}, tables})
+	llR := sst.NewLevelListOfTables([][]*sst.Table{{}, reopened})
+	// prefixes that start inside / at / across the table boundaries: prefixes of each boundary's two keys
+	{
+		seenP := map[string]bool{}
+		for _, p := range scans {
+			seenP[string(p)] = true
+		}
+		hits := func(p []byte) int {
+			n := 0
+			for _, e := range es {
+				if bytes.HasPrefix(e.k, p) {
+					n++
+				}
+			}
+			return n
+		}
+		addP := func(p []byte) {
+			if seenP[string(p)] || (len(es) > 500 && hits(p) > 300) {
+				return
+			}
+			seenP[string(p)] = true
+			scans = append(scans, append([]byte{}, p...))
+			tags = appendOnce(tags, "scan-boundary-prefix")
+		}
+		for i := 0; i+1 < len(ranges); i++ {
+			if i >= 3 && i+2 < len(ranges) {
+				continue // first three boundaries and the last one
+			}
+			for _, k := range [][]byte{ranges[i+1].start, ranges[i].end} {
+				if len(k) > 0 {
+					addP(k[:1])
+					addP(k[:(len(k)+1)/2])
+					addP(k[:len(k)-1])
+					addP(k)
+				}
+			}
+		}
+	}
 	var scs []string
 	for _, p := range scans {
 		var all, rall []string
@@ -716,10 +785,41 @@ func execTab(c *hx.Case, ops []op) (*hx.Result, error) {
 			rall = append(rall, s...)
 			rfail = rfail || f
 		}
-		scs = append(scs, shared2(coqOptEntries(all, fail), coqOptEntries(rall, rfail), func(a, b string) string {
-			return fmt.Sprintf("mkS %s %s %s", hx.CoqBytes(p), a, b)
-		}))
+		lf, lfFail := safeLevelScan(llF, p)
+		lr, lrFail := safeLevelScan(llR, p)
+		scs = append(scs, sharedN([]string{coqOptEntries(all, fail), coqOptEntries(rall, rfail), coqOptEntries(lf, lfFail), coqOptEntries(lr, lrFail)},
+			func(a []string) string {
+				return fmt.Sprintf("mkS %s %s %s %s %s", hx.CoqBytes(p), a[0], a[1], a[2], a[3])
+			}))
 		tags = append(tags, "scan-"+nTag("hits", len(all)))
+		// regime of C17r3-1: the first table holding the prefix starts inside the prefix group and ends beyond it
+		for i, rg := range ranges {
+			if len(tableKeys[i]) == 0 || !bytes.HasPrefix(rg.start, p) {
+				continue
+			}
+			covered := i > 0 && (bytes.Compare(ranges[i-1].end, p) >= 0)
+			if !covered && !bytes.HasPrefix(rg.end, p) && len(p) > 0 {
+				tags = appendOnce(tags, "scan-prefix-group-starts-table-ends-inside")
+			}
+			break
+		}
+	}
+	// LevelList.Get for every distinct lookup key
+	var lgs []string
+	{
+		seenK := map[string]bool{}
+		for _, g := range tgets {
+			if seenK[string(g.k)] {
+				continue
+			}
+			seenK[string(g.k)] = true
+			fr := safeLevelGet(llF, g.k)
+			rr := safeLevelGet(llR, g.k)
+			lgs = append(lgs, shared2(fr.term, rr.term, func(a, b string) string {
+				return fmt.Sprintf("mkLG %s %s %s", hx.CoqBytes(g.k), a, b)
+			}))
+			tags = appendOnce(tags, "level-get-"+fr.tag)
+		}
 	}
 	var bls []string
 	if len(blooms) > 0 {
@@ -738,8 +838,8 @@ func execTab(c *hx.Case, ops []op) (*hx.Result, error) {
 	for _, e := range es {
 		ets = append(ets, coqEntry(e.k, e.v, e.seq, e.del))
 	}
-	term := fmt.Sprintf("TabC %s %s %d %s %s %s %s", hx.CoqBool(deep), coqEntries(ets), target,
-		hx.CoqList(otabs, "otable"), hx.CoqList(lks, "olookup"), hx.CoqList(scs, "oscan"), hx.CoqList(bls, "obloom"))
+	term := fmt.Sprintf("TabC %s %s %d %s %s %s %s %s", hx.CoqBool(deep), coqEntries(ets), target,
+		hx.CoqList(otabs, "otable"), hx.CoqList(lks, "olookup"), hx.CoqList(scs, "oscan"), hx.CoqList(bls, "obloom"), hx.CoqList(lgs, "olget"))
 	if deep {
 		tags = append(tags, "deep")
 	}
@@ -900,6 +1000,28 @@ func shared2(a, b string, mk func(a, b string) string) string {
 		return "(let x := " + a + " in " + mk("x", "x") + ")"
 	}
 	return "(" + mk(a, b) + ")"
+}
+
+// sharedN: like shared2 for several arguments: equal large arguments are bound once.
+func sharedN(args []string, mk func([]string) string) string {
+	names := make([]string, len(args))
+	var lets []string
+	bound := map[string]string{}
+	for i, a := range args {
+		if len(a) <= 40 {
+			names[i] = a
+			continue
+		}
+		if n, ok := bound[a]; ok {
+			names[i] = n
+			continue
+		}
+		n := fmt.Sprintf("x%d", len(lets))
+		bound[a] = n
+		lets = append(lets, "let "+n+" := "+a+" in ")
+		names[i] = n
+	}
+	return "(" + strings.Join(lets, "") + mk(names) + ")"
 }
 
 // cksum: a 60-bit shift/xor checksum (Corr/Check_sstcodec.v cksum)
